@@ -1,6 +1,6 @@
-(* C03 - syntax faults, family A: NO SEMANTIC FOLLOW-UP.  If the valid program the faulty one stems from is well-typed,
-   the tree the parser builds for the faulty one is well-typed too (with respect to the table `build` makes for it:
-   the same entries, the ranges behind the gap one smaller) - so build and analyze attach nothing to it.
+(* C03 - syntax faults: NO SEMANTIC FOLLOW-UP.  If the valid program the faulty one stems from is well-typed, the tree the
+   parser builds for the faulty one is well-typed too (with respect to the table `build` makes for it: the same entries,
+   the ranges behind the gap one smaller) - so build and analyze attach nothing to it.
 
    The typing judgements never read a range, an offset or an attached error, but the TABLE carries ranges, so the two
    trees are compared through the analysis (Proofs/FormatDiag*.v: trees that agree up to erasure, with an injective
@@ -10,120 +10,178 @@
      so it is well-typed (Proofs/CompleteSem.v: back_end_complete); the judgements do not see the error: fx_* is too. *)
 From Coq Require Import List Lia Arith Bool.
 From Spl Require Import Proofs.GrammarProofs Spec.Typing Model.Errors Proofs.SemProofs Proofs.TypingProofs Proofs.CompleteSem
-  Proofs.FormatDiagErase Proofs.FormatDiagSem Proofs.FormatDiagMsgs Proofs.FormatDiagTop Proofs.FormatDiagAny Proofs.RangeProofs
-  Proofs.SynFaults Proofs.SynFaultsStmt Proofs.SynFaultsProg Proofs.SynFaultsText.
+  Proofs.FormatDiagErase Proofs.FormatDiagSem Proofs.FormatDiagMsgs Proofs.FormatDiagTop Proofs.FormatDiagAny Proofs.RangeProofs.
+From Spl Require Import Proofs.SynFaults Proofs.SynFaultsStmt Proofs.SynFaultsProg Proofs.SynFaultsText.
 Import ListNotations.
 Local Open Scope nat_scope.
 
-(* ---- the faulty tree without its error ---- *)
-Fixpoint fx0_stmt (o : nat) (s : fstmt) : stmt :=
-  match s with
-  | FAsg v c1 e =>
-      SAssign (x_var o v) (Some (x_cmp 0 e, o + len (fl_var v) + len c1 + 1)) (mkinfo o (o + len (ffl_stmt s)))
-  | FCal c1 f c2 a c3 =>
-      SCall (x_ident o c1 f) (x_sep fl_cmp (x_cmp 0) (o + len c1 + 1 + len c2 + 1) a) (mkinfo o (o + len (ffl_stmt s)))
-  | FIfT c1 c2 e c3 t =>
-      let o_e := o + len c1 + 1 + len c2 + 1 in
-      let o_t := o_e + len (fl_cmp e) + len c3 + 1 in
-      SIf (Some (x_cmp 0 e, o_e)) (Some (fx0_stmt 0 t, o_t)) None (mkinfo o (o + len (ffl_stmt s)))
-  | FIfE1 c1 c2 e c3 t c4 s' =>
-      let o_e := o + len c1 + 1 + len c2 + 1 in
-      let o_t := o_e + len (fl_cmp e) + len c3 + 1 in
-      let o_s := o_t + len (ffl_stmt t) + len c4 + 1 in
-      SIf (Some (x_cmp 0 e, o_e)) (Some (fx0_stmt 0 t, o_t)) (Some (x_stmt 0 s', o_s)) (mkinfo o (o + len (ffl_stmt s)))
-  | FIfE2 c1 c2 e c3 t c4 s' =>
-      let o_e := o + len c1 + 1 + len c2 + 1 in
-      let o_t := o_e + len (fl_cmp e) + len c3 + 1 in
-      let o_s := o_t + len (fl_stmt t) + len c4 + 1 in
-      SIf (Some (x_cmp 0 e, o_e)) (Some (x_stmt 0 t, o_t)) (Some (fx0_stmt 0 s', o_s)) (mkinfo o (o + len (ffl_stmt s)))
-  | FWhl c1 c2 e c3 b =>
-      let o_e := o + len c1 + 1 + len c2 + 1 in
-      let o_b := o_e + len (fl_cmp e) + len c3 + 1 in
-      SWhile (Some (x_cmp 0 e, o_e)) (Some (fx0_stmt 0 b, o_b)) (mkinfo o (o + len (ffl_stmt s)))
-  | FBlk c1 b c2 => SBlock (fx0_stmts (o + len c1 + 1) b) (mkinfo o (o + len (ffl_stmt s)))
-  end
-with fx0_stmts (o : nat) (b : fstmts) : list (stmt * nat) :=
-  match b with
-  | FHere s r => (fx0_stmt 0 s, o) :: x_stmts (o + len (ffl_stmt s)) r
-  | FLater s r => (x_stmt 0 s, o) :: fx0_stmts (o + len (fl_stmt s)) r
+Ltac unblk :=
+  repeat match goal with
+  | |- context [fxg_stmt ?E ?o (FBlk ?c1 ?b ?c2)] =>
+      change (fxg_stmt E o (FBlk c1 b c2)) with (SBlock (fxg_stmts E (o + len c1 + 1) b) (mkinfo o (o + len (ffl_stmt (FBlk c1 b c2)))))
+  | |- context [fxg_stmts ?E ?o (FHere ?s ?r)] =>
+      change (fxg_stmts E o (FHere s r)) with ((fxg_stmt E 0 s, o) :: x_stmts (o + len (ffl_stmt s)) r)
+  | |- context [fxg_stmts ?E ?o (FLater ?s ?r)] =>
+      change (fxg_stmts E o (FLater s r)) with ((x_stmt 0 s, o) :: fxg_stmts E (o + len (fl_stmt s)) r)
+  | H : context [fxg_stmt ?E ?o (FBlk ?c1 ?b ?c2)] |- _ =>
+      change (fxg_stmt E o (FBlk c1 b c2)) with (SBlock (fxg_stmts E (o + len c1 + 1) b) (mkinfo o (o + len (ffl_stmt (FBlk c1 b c2))))) in H
+  | H : context [fxg_stmts ?E ?o (FHere ?s ?r)] |- _ =>
+      change (fxg_stmts E o (FHere s r)) with ((fxg_stmt E 0 s, o) :: x_stmts (o + len (ffl_stmt s)) r) in H
+  | H : context [fxg_stmts ?E ?o (FLater ?s ?r)] |- _ =>
+      change (fxg_stmts E o (FLater s r)) with ((x_stmt 0 s, o) :: fxg_stmts E (o + len (fl_stmt s)) r) in H
   end.
 
-Definition with_stmts (g : gdecl) (ss : list (stmt * nat)) : gdecl :=
-  match g with
-  | GProc d => GProc {| pd_doc := pd_doc d; pd_name := pd_name d; pd_params := pd_params d; pd_vars := pd_vars d;
-                        pd_stmts := ss; pd_info := pd_info d |}
-  | _ => g
-  end.
+(* ---- the tree without the error is clean ---- *)
+Lemma x_args_clean a o : forallb (fun r : expr * nat => clean_expr (fst r)) (x_sep fl_cmp (x_cmp 0) o a) = true.
+Proof. destruct a as [[e l]|]; cbn [x_sep forallb fst]; [|reflexivity]. now rewrite clean_cmp, clean_tail. Qed.
 
-Definition body_off (d : fdecl) : nat :=
-  match d with
-  | FProc c1 c2 x c3 ps c4 c5 vs b c6 =>
-      len c1 + 1 + len c2 + 1 + len c3 + 1 + len (fl_sep fl_param ps) + len c4 + 1 + len c5 + 1 + len (flat_map fl_vardecl vs)
-  end.
-Definition body_of (d : fdecl) : fstmts := match d with FProc _ _ _ _ _ _ _ _ b _ => b end.
-
-Definition fx0_decl (d : fdecl) : gdecl := with_stmts (fx_decl d) (fx0_stmts (body_off d) (body_of d)).
-
-Lemma fx_decl_with d : fx_decl d = with_stmts (fx_decl d) (fx_stmts (body_off d) (body_of d)).
-Proof. destruct d; reflexivity. Qed.
-
-Definition fexpected0 (p : fprog) : program :=
-  let o := len (flat_map fl_decl (fp_pre p)) in
-  {| pg_decls := x_decls 0 (fp_pre p) ++ (fx0_decl (fp_decl p), o) :: x_decls (o + len (ffl_decl (fp_decl p))) (fp_post p);
-     pg_info := pg_info (fexpected p) |}.
-
-(* ---- it is clean ---- *)
 Lemma fx0_clean :
   (forall s o, clean_stmt (fx0_stmt o s) = true) /\
   (forall b o, forallb (fun r : stmt * nat => clean_stmt (fst r)) (fx0_stmts o b) = true).
 Proof.
-  apply fstmt_mutind; intros; cbn [fx0_stmt fx0_stmts clean_stmt clean_opt forallb fst];
-    rewrite ?clean_cmp, ?clean_var_ok, ?H, ?(proj1 clean_stmt_all), ?(proj2 clean_stmt_all); try reflexivity.
-  destruct a as [[e l]|]; cbn [x_sep forallb fst]; [|reflexivity]. now rewrite clean_cmp, clean_tail.
+  apply fstmt_mutind; intros; unblk; cbn [fxg_stmt clean_stmt clean_opt forallb fst einfo i_errs];
+    rewrite ?clean_cmp, ?clean_var_ok, ?x_args_clean, ?H, ?(proj1 clean_stmt_all), ?(proj2 clean_stmt_all); reflexivity.
 Qed.
 
 Lemma x_decls_clean o ds : forallb (fun r : gdecl * nat => clean_gdecl (fst r)) (x_decls o ds) = true.
 Proof. revert o. induction ds as [|d ds IH]; intros o; cbn [x_decls forallb fst]; [reflexivity|]. now rewrite clean_decl, IH. Qed.
 
-Lemma fexpected0_clean p : tree_clean (fexpected0 p) = true.
+Lemma x_params_clean o ps : forallb (fun r : paramdecl * nat => clean_paramdecl (fst r)) (x_sep fl_param x_param o ps) = true.
+Proof. destruct ps as [[q l]|]; cbn [x_sep forallb fst]; [|reflexivity]. now rewrite clean_param, clean_params_tail. Qed.
+
+Lemma fx0_decl_clean d : clean_gdecl (fx0_decl d) = true.
 Proof.
-  unfold tree_clean, fexpected0, fexpected. cbn [pg_decls pg_info]. rewrite andb_true_r, forallb_app. cbn [forallb fst].
-  rewrite !x_decls_clean. cbn [andb]. rewrite andb_true_r.
-  destruct (fp_decl p) as [c1 c2 x c3 ps c4 c5 vs b c6]. unfold fx0_decl. cbn [fx_decl with_stmts body_off body_of clean_gdecl].
-  cbn [pd_name pd_params pd_vars pd_stmts pd_info clean_opt fst].
-  rewrite clean_vardecls, (proj2 fx0_clean).
-  destruct ps as [[q l]|]; cbn [x_sep forallb fst]; [|reflexivity]. now rewrite clean_param, clean_params_tail.
+  destruct d as [c1 c2 x c3 ps c4 c5 vs b c6|c1 c2 x c3 ps c4 c5 vs1 d1 d2 y d3 t vs2 b c6|c1 c2 x c3 ps c4 c5 vs b|c1 c2 x c3 t];
+    cbn [fxg_decl clean_gdecl]; cbv zeta; cbn [pd_name pd_params pd_vars pd_stmts pd_info td_name td_ty td_info clean_opt fst einfo i_errs].
+  - rewrite x_params_clean, clean_vardecls, (proj2 fx0_clean). reflexivity.
+  - rewrite x_params_clean, forallb_app. cbn [forallb fst]. rewrite !clean_vardecls, (proj2 clean_stmt_all).
+    unfold fxg_var. cbv zeta. cbn [clean_vardecl clean_opt fst]. rewrite clean_type. reflexivity.
+  - rewrite x_params_clean, clean_vardecls, (proj2 clean_stmt_all). reflexivity.
+  - rewrite clean_type. reflexivity.
 Qed.
 
-(* ---- every identifier of it has a non-empty range: the parser's tree has, and the two differ in one statement's info ---- *)
-Lemma fx0_ok :
-  (forall s o, StmtOk (fx_stmt o s) -> StmtOk (fx0_stmt o s)) /\
-  (forall b o, Forall (RefP StmtOk) (fx_stmts o b) -> Forall (RefP StmtOk) (fx0_stmts o b)).
+Lemma fexpected0_clean p : tree_clean (fexpected0 p) = true.
+Proof.
+  unfold tree_clean, fxg_prog. cbn [pg_decls pg_info]. rewrite andb_true_r, forallb_app. cbn [forallb fst].
+  rewrite !x_decls_clean, fx0_decl_clean. reflexivity.
+Qed.
+
+(* ---- every identifier of it has a non-empty range: the parser's tree has, and the two differ in infos only ---- *)
+Section Two.
+Variables E E' : pmsg -> nat -> list err.
+
+Lemma fxg_ok :
+  (forall s o, StmtOk (fxg_stmt E o s) -> StmtOk (fxg_stmt E' o s)) /\
+  (forall b o, Forall (RefP StmtOk) (fxg_stmts E o b) -> Forall (RefP StmtOk) (fxg_stmts E' o b)).
 Proof.
   apply fstmt_mutind.
   - intros v c1 e o H. exact H.
   - intros c1 f c2 a c3 o H. exact H.
+  - intros c1 f c2 a c4 o H. exact H.
+  - intros c1 c2 e t o H. exact H.
+  - intros c1 c2 e t c4 s o H. exact H.
+  - intros c1 c2 e b o H. exact H.
   - intros c1 c2 e c3 t IH o [H1 [H2 H3]]. split; [exact H1|]. split; [apply IH, H2 | exact H3].
   - intros c1 c2 e c3 t IH c4 s o [H1 [H2 H3]]. split; [exact H1|]. split; [apply IH, H2 | exact H3].
   - intros c1 c2 e c3 t c4 s IH o [H1 [H2 H3]]. split; [exact H1|]. split; [exact H2 | apply IH, H3].
   - intros c1 c2 e c3 b IH o [H1 H2]. split; [exact H1 | apply IH, H2].
-  - intros c1 b IH c2 o H. cbn [fx_stmt fx0_stmt] in *. rewrite StmtOk_block in *. apply IH, H.
-  - intros s IH r o H. cbn [fx_stmts fx0_stmts] in *. inversion H as [|x l H1 H2]; subst. constructor; [apply IH, H1 | exact H2].
-  - intros s r IH o H. cbn [fx_stmts fx0_stmts] in *. inversion H as [|x l H1 H2]; subst. constructor; [exact H1 | apply IH, H2].
+  - intros c1 b IH c2 o H. unblk. rewrite StmtOk_block in *. apply IH, H.
+  - intros s IH r o H. unblk. inversion H as [|x l H1 H2]; subst. constructor; [apply IH, H1 | exact H2].
+  - intros s r IH o H. unblk. inversion H as [|x l H1 H2]; subst. constructor; [exact H1 | apply IH, H2].
 Qed.
 
-Lemma fexpected0_idents p : IdentsNonEmpty (fexpected p) -> IdentsNonEmpty (fexpected0 p).
+Lemma fxg_decl_ok d : GdeclOk (fxg_decl E d) -> GdeclOk (fxg_decl E' d).
 Proof.
-  unfold IdentsNonEmpty, fexpected0, fexpected. cbn [pg_decls]. intros H.
-  apply Forall_app in H. destruct H as [H1 H2]. inversion H2 as [|x l H3 H4]; subst.
-  apply Forall_app. split; [exact H1|]. constructor; [|exact H4].
-  unfold RefP in *. cbn [fst] in *. rewrite fx_decl_with in H3. unfold fx0_decl.
-  destruct (fx_decl (fp_decl p)) as [d|d|inf] eqn:E; [destruct (fp_decl p); discriminate E | | destruct (fp_decl p); discriminate E].
-  cbn [with_stmts GdeclOk] in *. destruct H3 as [Hn [Hp [Hv Hs]]]. cbn [pd_name pd_params pd_vars pd_stmts] in *.
-  repeat split; try assumption. apply fx0_ok, Hs.
+  destruct d as [c1 c2 x c3 ps c4 c5 vs b c6|c1 c2 x c3 ps c4 c5 vs1 d1 d2 y d3 t vs2 b c6|c1 c2 x c3 ps c4 c5 vs b|c1 c2 x c3 t];
+    cbn [fxg_decl GdeclOk]; cbv zeta.
+  - intros [Hn [Hp [Hv Hs]]]. cbn [pd_name pd_params pd_vars pd_stmts] in *. repeat split; try assumption. apply (proj2 fxg_ok), Hs.
+  - intros [Hn [Hp [Hv Hs]]]. cbn [pd_name pd_params pd_vars pd_stmts] in *. repeat split; try assumption.
+    apply Forall_app in Hv. destruct Hv as [H1 H2]. inversion H2 as [|x0 l H3 H4]; subst.
+    apply Forall_app. split; [exact H1|]. constructor; [exact H3 | exact H4].
+  - intros H. exact H.
+  - intros H. exact H.
 Qed.
 
-(* ---- it has the erasure of the original's tree ---- *)
+Lemma fxg_prog_idents p : IdentsNonEmpty (fxg_prog E p) -> IdentsNonEmpty (fxg_prog E' p).
+Proof.
+  unfold IdentsNonEmpty, fxg_prog. cbn [pg_decls]. intros H.
+  apply Forall_app in H. destruct H as [H1 H2]. inversion H2 as [|x l H3 H4]; subst.
+  apply Forall_app. split; [exact H1|]. constructor; [|exact H4]. unfold RefP in *. cbn [fst] in *. apply fxg_decl_ok, H3.
+Qed.
+
+(* ---- the judgements do not see the attached error ---- *)
+Lemma wt_fxg L G :
+  (forall s o, wt_stmt L G (fxg_stmt E o s) -> wt_stmt L G (fxg_stmt E' o s)) /\
+  (forall b o, wt_stmts L G (fxg_stmts E o b) -> wt_stmts L G (fxg_stmts E' o b)).
+Proof.
+  apply fstmt_mutind.
+  - intros v c1 e o H. cbn [fxg_stmt] in *. inversion H; subst. apply WT_assign; assumption.
+  - intros c1 f c2 a c3 o H. cbn [fxg_stmt] in *. inversion H; subst. eapply WT_call; eassumption.
+  - intros c1 f c2 a c4 o H. cbn [fxg_stmt] in *. inversion H; subst. eapply WT_call; eassumption.
+  - intros c1 c2 e t o H. cbn [fxg_stmt] in *. inversion H; subst. apply WT_if; assumption.
+  - intros c1 c2 e t c4 s o H. cbn [fxg_stmt] in *. inversion H; subst. apply WT_if_else; assumption.
+  - intros c1 c2 e b o H. cbn [fxg_stmt] in *. inversion H; subst. apply WT_while; assumption.
+  - intros c1 c2 e c3 t IH o H. cbn [fxg_stmt] in *. inversion H; subst. apply WT_if; [assumption | apply IH; assumption].
+  - intros c1 c2 e c3 t IH c4 s o H. cbn [fxg_stmt] in *. inversion H; subst.
+    apply WT_if_else; [assumption | apply IH; assumption | assumption].
+  - intros c1 c2 e c3 t c4 s IH o H. cbn [fxg_stmt] in *. inversion H; subst.
+    apply WT_if_else; [assumption | assumption | apply IH; assumption].
+  - intros c1 c2 e c3 b IH o H. cbn [fxg_stmt] in *. inversion H; subst. apply WT_while; [assumption | apply IH; assumption].
+  - intros c1 b IH c2 o H. unblk. inversion H; subst. apply WT_block. apply IH. assumption.
+  - intros s IH r o H. unblk. inversion H; subst. apply WT_cons; [apply IH; assumption | assumption].
+  - intros s r IH o H. unblk. inversion H; subst. apply WT_cons; [assumption | apply IH; assumption].
+Qed.
+
+(* the declaration rules do not look at the bodies, nor at the errors of an info *)
+Lemma wf_vars_info G pname doc name ty inf inf' off l2 : info_range inf = info_range inf' -> forall l1 L L',
+  wf_vars G pname L (l1 ++ (VValid doc name ty inf, off) :: l2) L' -> wf_vars G pname L (l1 ++ (VValid doc name ty inf', off) :: l2) L'.
+Proof.
+  intros Hi. induction l1 as [|[a oa] l1 IH]; intros L L' H; cbn [app] in *.
+  - inversion H; subst. rewrite Hi in *. eapply WFV_cons; eassumption.
+  - inversion H; subst. eapply WFV_cons; try eassumption. apply IH. assumption.
+Qed.
+
+Lemma wf_fxg_decl G off d ke : wf_gdecl G off (fxg_decl E d) ke -> wf_gdecl G off (fxg_decl E' d) ke.
+Proof.
+  destruct d as [c1 c2 x c3 ps c4 c5 vs b c6|c1 c2 x c3 ps c4 c5 vs1 d1 d2 y d3 t vs2 b c6|c1 c2 x c3 ps c4 c5 vs b|c1 c2 x c3 t];
+    cbn [fxg_decl]; cbv zeta; intros H.
+  - inversion H as [|d name L1 ps' L2 Hn Hl Hp Hv]; subst.
+    match goal with |- wf_gdecl _ _ (GProc ?d') _ => exact (WF_proc G off d' name L1 ps' L2 Hn Hl Hp Hv) end.
+  - inversion H as [|d name L1 ps' L2 Hn Hl Hp Hv]; subst. cbn [pd_vars pd_name pd_params] in *.
+    match goal with |- wf_gdecl _ _ (GProc ?d') _ => refine (WF_proc G off d' name L1 ps' L2 Hn Hl Hp _) end.
+    cbn [pd_vars]. unfold fxg_var in *. cbv zeta in *. eapply wf_vars_info; [|exact Hv]. reflexivity.
+  - inversion H as [|d name L1 ps' L2 Hn Hl Hp Hv]; subst.
+    match goal with |- wf_gdecl _ _ (GProc ?d') _ => exact (WF_proc G off d' name L1 ps' L2 Hn Hl Hp Hv) end.
+  - inversion H as [d name te o t0 Hn Hm Hl Ht Hd|]; subst.
+    match goal with |- wf_gdecl _ _ (GType ?d') _ => exact (WF_type G off d' name te o t0 Hn Hm Hl Ht Hd) end.
+Qed.
+
+Lemma wf_gdecls_fxg pre d off post : forall G es,
+  wf_gdecls G (pre ++ (fxg_decl E d, off) :: post) es -> wf_gdecls G (pre ++ (fxg_decl E' d, off) :: post) es.
+Proof.
+  induction pre as [|[a oa] pre IH]; intros G es H; cbn [app] in *.
+  - inversion H; subst. constructor; [apply wf_fxg_decl; assumption | assumption].
+  - inversion H; subst. constructor; [assumption | apply IH; assumption].
+Qed.
+
+Theorem fxg_well_typed p G : well_typed (fxg_prog E p) G -> well_typed (fxg_prog E' p) G.
+Proof.
+  intros [[es [Hwf [HG Hmain]]] Hwt]. unfold fxg_prog in *. cbn [pg_decls pg_info] in *. cbv zeta in *.
+  set (o := len (flat_map fl_decl (fp_pre p))) in *. split.
+  - exists es. split; [|split; assumption]. cbn [pg_decls]. apply wf_gdecls_fxg, Hwf.
+  - unfold wt_bodies in *. cbn [pg_decls] in *. apply Forall_app in Hwt. destruct Hwt as [H1 H2].
+    inversion H2 as [|x l H3 H4]; subst. apply Forall_app. split; [exact H1|]. constructor; [|exact H4].
+    destruct H3 as [He Hb].
+    destruct (fp_decl p) as [c1 c2 x c3 ps c4 c5 vs b c6|c1 c2 x c3 ps c4 c5 vs1 d1 d2 y d3 t vs2 b c6|c1 c2 x c3 ps c4 c5 vs b|c1 c2 x c3 t];
+      cbn [fxg_decl] in *; cbv zeta in *; (split; [exact He|]); unfold wt_body in *; cbn [fst snd] in *.
+    + intros pe Ho. cbn [pd_stmts]. apply (proj2 (wt_fxg _ _)). apply Hb. exact Ho.
+    + intros pe Ho. apply Hb. exact Ho.
+    + intros pe Ho. apply Hb. exact Ho.
+    + exact I.
+Qed.
+End Two.
+
+(* ---- the tree without the error has the erasure of the original's tree ---- *)
 Lemma er_x_off :
   (forall v o o', er_var (x_var o v) = er_var (x_var o' v)) /\
   (forall f o o', er_expr (x_fac o f) = er_expr (x_fac o' f)) /\
@@ -140,9 +198,6 @@ Proof.
   generalize (o + len (fl_cmp e)), (o' + len (fl_cmp e)). induction l as [|[c x] l IH]; intros n n'; [reflexivity|].
   cbn [x_tail map fst]. f_equal. apply IH.
 Qed.
-
-Lemma er_stmts_map l : er_stmts l = map (fun a : stmt * nat => (er_stmt (fst a), 0)) l.
-Proof. induction l as [|[x o] r IH]; [reflexivity|]. cbn [er_stmts map fst]. rewrite IH. reflexivity. Qed.
 
 Lemma er_x_stmt_off :
   (forall s o o', er_stmt (x_stmt o s) = er_stmt (x_stmt o' s)) /\
@@ -165,20 +220,24 @@ Lemma er_fx0 :
   (forall b o o', er_stmts (fx0_stmts o b) = er_stmts (x_stmts o' (orig_stmts b))).
 Proof.
   apply fstmt_mutind.
-  - intros v c1 e o o'. cbn [fx0_stmt orig_stmt x_stmt er_stmt er_oexpr]. rewrite (proj1 er_x_off v o o'). reflexivity.
-  - intros c1 f c2 a c3 o o'. cbn [fx0_stmt orig_stmt x_stmt]. rewrite !er_stmt_call, (er_args_off a _ (o' + len c1 + 1 + len c2 + 1)). reflexivity.
-  - intros c1 c2 e c3 t IH o o'. cbn [fx0_stmt orig_stmt x_stmt]. cbv zeta. rewrite !er_stmt_if. cbn [er_oexpr er_ostmt].
+  - intros v c1 e o o'. cbn [fxg_stmt orig_stmt x_stmt er_stmt er_oexpr]. rewrite (proj1 er_x_off v o o'). reflexivity.
+  - intros c1 f c2 a c3 o o'. cbn [fxg_stmt orig_stmt x_stmt]. rewrite !er_stmt_call, (er_args_off a _ (o' + len c1 + 1 + len c2 + 1)). reflexivity.
+  - intros c1 f c2 a c4 o o'. cbn [fxg_stmt orig_stmt x_stmt]. rewrite !er_stmt_call, (er_args_off a _ (o' + len c1 + 1 + len c2 + 1)). reflexivity.
+  - intros c1 c2 e t o o'. cbn [fxg_stmt orig_stmt x_stmt]. cbv zeta. rewrite !er_stmt_if. reflexivity.
+  - intros c1 c2 e t c4 s o o'. cbn [fxg_stmt orig_stmt x_stmt]. cbv zeta. rewrite !er_stmt_if. reflexivity.
+  - intros c1 c2 e b o o'. cbn [fxg_stmt orig_stmt x_stmt]. cbv zeta. rewrite !er_stmt_while. reflexivity.
+  - intros c1 c2 e c3 t IH o o'. cbn [fxg_stmt orig_stmt x_stmt]. cbv zeta. rewrite !er_stmt_if. cbn [er_oexpr er_ostmt].
     rewrite (IH 0 0). reflexivity.
-  - intros c1 c2 e c3 t IH c4 s o o'. cbn [fx0_stmt orig_stmt x_stmt]. cbv zeta. rewrite !er_stmt_if. cbn [er_oexpr er_ostmt].
+  - intros c1 c2 e c3 t IH c4 s o o'. cbn [fxg_stmt orig_stmt x_stmt]. cbv zeta. rewrite !er_stmt_if. cbn [er_oexpr er_ostmt].
     rewrite (IH 0 0). reflexivity.
-  - intros c1 c2 e c3 t c4 s IH o o'. cbn [fx0_stmt orig_stmt x_stmt]. cbv zeta. rewrite !er_stmt_if. cbn [er_oexpr er_ostmt].
+  - intros c1 c2 e c3 t c4 s IH o o'. cbn [fxg_stmt orig_stmt x_stmt]. cbv zeta. rewrite !er_stmt_if. cbn [er_oexpr er_ostmt].
     rewrite (IH 0 0). reflexivity.
-  - intros c1 c2 e c3 b IH o o'. cbn [fx0_stmt orig_stmt x_stmt]. cbv zeta. rewrite !er_stmt_while. cbn [er_oexpr er_ostmt].
+  - intros c1 c2 e c3 b IH o o'. cbn [fxg_stmt orig_stmt x_stmt]. cbv zeta. rewrite !er_stmt_while. cbn [er_oexpr er_ostmt].
     rewrite (IH 0 0). reflexivity.
-  - intros c1 b IH c2 o o'. cbn [fx0_stmt orig_stmt x_stmt]. rewrite !er_stmt_block, (IH _ (o' + len c1 + 1)). reflexivity.
-  - intros s IH r o o'. cbn [fx0_stmts orig_stmts x_stmts er_stmts]. rewrite (IH 0 0).
+  - intros c1 b IH c2 o o'. unblk. cbn [orig_stmt x_stmt]. rewrite !er_stmt_block, (IH _ (o' + len c1 + 1)). reflexivity.
+  - intros s IH r o o'. unblk. cbn [orig_stmts x_stmts er_stmts]. rewrite (IH 0 0).
     rewrite (proj2 er_x_stmt_off r _ (o' + len (fl_stmt (orig_stmt s)))). reflexivity.
-  - intros s r IH o o'. cbn [fx0_stmts orig_stmts x_stmts er_stmts]. rewrite (IH _ (o' + len (fl_stmt s))). reflexivity.
+  - intros s r IH o o'. unblk. cbn [orig_stmts x_stmts er_stmts]. rewrite (IH _ (o' + len (fl_stmt s))). reflexivity.
 Qed.
 
 Lemma er_params_off ps o o' : er_params (x_sep fl_param x_param o ps) = er_params (x_sep fl_param x_param o' ps).
@@ -193,11 +252,28 @@ Proof.
   unfold er_vars. revert o o'. induction vs as [|v vs IH]; intros o o'; [reflexivity|]. cbn [x_vardecls map fst]. f_equal. apply IH.
 Qed.
 
+Lemma x_vardecls_app l1 v l2 o :
+  x_vardecls o (l1 ++ v :: l2) =
+  x_vardecls o l1 ++ (x_vardecl v, o + len (flat_map fl_vardecl l1)) :: x_vardecls (o + len (flat_map fl_vardecl l1) + len (fl_vardecl v)) l2.
+Proof.
+  revert o. induction l1 as [|a l1 IH]; intros o; cbn [app x_vardecls flat_map length].
+  - rewrite Nat.add_0_r. reflexivity.
+  - rewrite IH, app_length, !Nat.add_assoc. reflexivity.
+Qed.
+
 Lemma er_fx0_decl d : er_gdecl (fx0_decl d) = er_gdecl (x_decl (orig_decl d)).
 Proof.
-  destruct d as [c1 c2 x c3 ps c4 c5 vs b c6]. unfold fx0_decl. cbn [fx_decl with_stmts body_off body_of orig_decl x_decl er_gdecl]. cbv zeta.
-  f_equal. unfold er_procdecl. cbn [pd_name pd_params pd_vars pd_stmts pd_info option_map]. f_equal.
-  apply (proj2 er_fx0).
+  destruct d as [c1 c2 x c3 ps c4 c5 vs b c6|c1 c2 x c3 ps c4 c5 vs1 d1 d2 y d3 t vs2 b c6|c1 c2 x c3 ps c4 c5 vs b|c1 c2 x c3 t];
+    cbn [fxg_decl orig_decl x_decl er_gdecl]; cbv zeta; f_equal.
+  - unfold er_procdecl. cbn [pd_name pd_params pd_vars pd_stmts pd_info option_map]. f_equal.
+    + apply er_vars_off.
+    + apply (proj2 er_fx0).
+  - unfold er_procdecl. cbn [pd_name pd_params pd_vars pd_stmts pd_info option_map]. f_equal.
+    + rewrite x_vardecls_app. unfold er_vars. rewrite !map_app. cbn [map fst]. f_equal; [apply er_vars_off|]. f_equal; try reflexivity; apply er_vars_off.
+    + apply (proj2 er_x_stmt_off).
+  - unfold er_procdecl. cbn [pd_name pd_params pd_vars pd_stmts pd_info option_map]. f_equal.
+    + apply er_vars_off.
+    + apply (proj2 er_x_stmt_off).
 Qed.
 
 (* ---- the declaration ranges: everything behind the gap is one smaller ---- *)
@@ -242,12 +318,15 @@ Proof.
 Qed.
 End Shift.
 
-Lemma fl_orig_decl_len d : len (fl_decl (orig_decl d)) = S (len (ffl_decl d)).
-Proof. rewrite <- ffl_decl_ins. apply ins_length. Qed.
+Lemma drange_fx E d o : drange (fxg_decl E d, o) = (o, o + len (ffl_decl d)).
+Proof.
+  unfold drange. destruct d; cbn [fst snd fxg_decl gdecl_info td_info pd_info]; cbv zeta; unfold info_range, shift_range, mkinfo, einfo;
+    cbn [i_s i_e fst snd]; f_equal; lia.
+Qed.
 
 Lemma fexpected0_prsim p : prsim (rho (gap_prog p)) (expected (orig_prog p)) (fexpected0 p).
 Proof.
-  split; [|reflexivity]. unfold expected, orig_prog, fexpected0. cbn [pg_decls a_decls].
+  split; [|reflexivity]. unfold expected, orig_prog, fxg_prog. cbn [pg_decls a_decls].
   set (o := len (flat_map fl_decl (fp_pre p))).
   assert (Hx : forall l1 d l2 n, x_decls n (l1 ++ d :: l2) =
                x_decls n l1 ++ (x_decl d, n + len (flat_map fl_decl l1)) :: x_decls (n + len (flat_map fl_decl l1) + len (fl_decl d)) l2).
@@ -258,65 +337,12 @@ Proof.
   pose proof (gap_decl_lt (fp_decl p)) as Hg. pose proof (fl_orig_decl_len (fp_decl p)) as Hl.
   unfold gap_prog. fold o.
   apply Forall2_app; [apply decls_dsim_same; cbn [Nat.add]; fold o; lia|]. constructor.
-  - split; [cbn [fst]; symmetry; apply er_fx0_decl|]. rewrite drange_x.
-    assert (Hd : drange (fx0_decl (fp_decl p), o) = (o, o + len (ffl_decl (fp_decl p)))).
-    { unfold drange, fx0_decl. destruct (fp_decl p) as [c1 c2 x c3 ps c4 c5 vs b c6].
-      cbn [fst snd fx_decl with_stmts gdecl_info pd_info]. unfold info_range, shift_range, mkinfo. cbn [i_s i_e fst snd]. f_equal; lia. }
-    rewrite Hd. unfold rho, okp, sh. cbn [fst snd]. split; [lia|]. split; [lia|].
+  - split; [cbn [fst]; symmetry; apply er_fx0_decl|]. rewrite drange_x, drange_fx.
+    unfold rho, okp, sh. cbn [fst snd]. split; [lia|]. split; [lia|].
     destruct (Nat.leb_spec o (o + gap_decl (fp_decl p))), (Nat.leb_spec (o + len (fl_decl (orig_decl (fp_decl p)))) (o + gap_decl (fp_decl p)));
       try lia. f_equal. lia.
   - replace (o + len (ffl_decl (fp_decl p))) with (o + len (fl_decl (orig_decl (fp_decl p))) - 1) by lia.
     apply decls_dsim_shift. lia.
-Qed.
-
-(* ---- the judgements do not see the attached error ---- *)
-Lemma wt_fx L G :
-  (forall s o, wt_stmt L G (fx0_stmt o s) -> wt_stmt L G (fx_stmt o s)) /\
-  (forall b o, wt_stmts L G (fx0_stmts o b) -> wt_stmts L G (fx_stmts o b)).
-Proof.
-  apply fstmt_mutind.
-  - intros v c1 e o H. cbn [fx0_stmt fx_stmt] in *. inversion H; subst. apply WT_assign; assumption.
-  - intros c1 f c2 a c3 o H. cbn [fx0_stmt fx_stmt] in *. inversion H; subst. eapply WT_call; eassumption.
-  - intros c1 c2 e c3 t IH o H. cbn [fx0_stmt fx_stmt] in *. inversion H; subst. apply WT_if; [assumption | apply IH; assumption].
-  - intros c1 c2 e c3 t IH c4 s o H. cbn [fx0_stmt fx_stmt] in *. inversion H; subst.
-    apply WT_if_else; [assumption | apply IH; assumption | assumption].
-  - intros c1 c2 e c3 t c4 s IH o H. cbn [fx0_stmt fx_stmt] in *. inversion H; subst.
-    apply WT_if_else; [assumption | assumption | apply IH; assumption].
-  - intros c1 c2 e c3 b IH o H. cbn [fx0_stmt fx_stmt] in *. inversion H; subst. apply WT_while; [assumption | apply IH; assumption].
-  - intros c1 b IH c2 o H. cbn [fx0_stmt fx_stmt] in *. inversion H; subst. apply WT_block. apply IH. assumption.
-  - intros s IH r o H. cbn [fx0_stmts fx_stmts] in *. inversion H; subst. apply WT_cons; [apply IH; assumption | assumption].
-  - intros s r IH o H. cbn [fx0_stmts fx_stmts] in *. inversion H; subst. apply WT_cons; [assumption | apply IH; assumption].
-Qed.
-
-(* the declaration rules do not look at the body *)
-Lemma wf_gdecl_with G off g ss ke : wf_gdecl G off g ke -> wf_gdecl G off (with_stmts g ss) ke.
-Proof.
-  intros H. destruct H as [d name te o t Hn Hm Hl Ht Hd | d name L1 ps L2 Hn Hl Hp Hv]; cbn [with_stmts].
-  - eapply WF_type; eassumption.
-  - exact (WF_proc G off {| pd_doc := pd_doc d; pd_name := pd_name d; pd_params := pd_params d; pd_vars := pd_vars d;
-                            pd_stmts := ss; pd_info := pd_info d |} name L1 ps L2 Hn Hl Hp Hv).
-Qed.
-
-Lemma wf_gdecls_with pre g off post ss : forall G es,
-  wf_gdecls G (pre ++ (g, off) :: post) es -> wf_gdecls G (pre ++ (with_stmts g ss, off) :: post) es.
-Proof.
-  induction pre as [|[a oa] pre IH]; intros G es H; cbn [app] in *.
-  - inversion H; subst. constructor; [apply wf_gdecl_with; assumption | assumption].
-  - inversion H; subst. constructor; [assumption | apply IH; assumption].
-Qed.
-
-Theorem fexpected_well_typed p G : well_typed (fexpected0 p) G -> well_typed (fexpected p) G.
-Proof.
-  intros [[es [Hwf [HG Hmain]]] Hwt]. unfold fexpected0, fexpected in *. cbn [pg_decls pg_info] in *. cbv zeta in *.
-  set (o := len (flat_map fl_decl (fp_pre p))) in *. split.
-  - exists es. split; [|split; assumption]. cbn [pg_decls]. rewrite fx_decl_with. unfold fx0_decl in Hwf.
-    apply (wf_gdecls_with _ _ _ _ (fx_stmts (body_off (fp_decl p)) (body_of (fp_decl p)))) in Hwf.
-    destruct (fx_decl (fp_decl p)) as [d|d|inf]; exact Hwf.
-  - unfold wt_bodies in *. cbn [pg_decls] in *. apply Forall_app in Hwt. destruct Hwt as [H1 H2].
-    inversion H2 as [|x l H3 H4]; subst. apply Forall_app. split; [exact H1|]. constructor; [|exact H4].
-    destruct H3 as [He Hb]. unfold fx0_decl in He, Hb.
-    destruct (fp_decl p) as [c1 c2 x c3 ps c4 c5 vs b c6]. cbn [fx_decl with_stmts body_off body_of] in *. split; [exact He|].
-    unfold wt_body in *. cbn [fst snd] in *. intros pe Ho. cbn [pd_stmts]. apply (proj2 (wt_fx _ _)). apply Hb. exact Ho.
 Qed.
 
 (* ---- the theorem ---- *)
@@ -336,7 +362,7 @@ Proof.
   intros Hok Hwt.
   destruct (no_false_positive_tree _ _ (expected_clean (orig_prog p)) Hwt) as [Hb [Ha He]].
   pose proof (fparse p (toks_of_kinds (fflatten p ++ [Eof])) Hok (toks_of_kinds_tk _)) as Hp.
-  pose proof (fexpected0_idents p (parse_idents_nonempty _ _ Hp)) as Hid.
+  pose proof (fxg_prog_idents e_real e_none p (parse_idents_nonempty _ _ Hp)) as Hid.
   destruct (build_res_ok _ Hid) as (p1 & tb & Hb1 & Hid1 & _).
   destruct (analyze_res_ok _ _ _ Hb1 Hid1) as (p2 & Ha2 & _).
   set (R := rho (gap_prog p)).
@@ -349,16 +375,16 @@ Proof.
   pose proof (analyze_res_2 R Rinj _ _ _ _ _ _ P1 T1 Ha Ha2) as P2.
   pose proof (prsim_msgs R _ _ P2) as Hm. rewrite He in Hm. cbn [map] in Hm. symmetry in Hm. apply map_eq_nil in Hm.
   destruct (back_end_complete _ _ _ _ (fexpected0_clean p) Hb1 Ha2 Hm) as [_ [_ Hwt0]].
-  exists tb. apply fexpected_well_typed, Hwt0.
+  exists tb. exact (fxg_well_typed e_none e_real p tb Hwt0).
 Qed.
 
-(* family A from texts on, in terms of the ORIGINAL program: if it is well-typed, every text that lexes to its tokens
-   minus that `;` gets exactly the one diagnostic `missing trailing ;` at the end of the token in front of the gap *)
-Theorem missing_semicolon_text_orig p t G toks tok :
+(* from texts on, in terms of the ORIGINAL program: if it is well-typed, every text that lexes to its tokens minus that one
+   closing token gets exactly the one prescribed diagnostic, at the end of the token in front of the gap *)
+Theorem missing_token_text_orig p t G toks tok :
   fprog_ok p = true -> well_typed (expected (orig_prog p)) G ->
   lex t = Some toks -> map tk toks = fflatten p ++ [Eof] -> nth_error toks (gap_prog p) = Some tok ->
-  diagnostics t = Done [(te tok, te tok, EParse MissingTrailingSemic)].
+  diagnostics t = Done [(te tok, te tok, EParse (msg_of_kind (gk_prog p)))].
 Proof.
   intros Hok Hwt Hlex Hk Htok. destruct (orig_well_typed p G Hok Hwt) as [G' Hwt'].
-  exact (missing_semicolon_text p t G' toks tok Hok Hlex Hk Hwt' Htok).
+  exact (missing_token_text p t G' toks tok Hok Hlex Hk Hwt' Htok).
 Qed.
